@@ -25,6 +25,16 @@ pub(super) struct State {
     synchronize: Synchronize,
 }
 
+/// Actions performed on the mutex
+#[derive(Debug, Copy, Clone, PartialEq)]
+pub(super) enum Action {
+    /// Blocking acquire
+    Lock,
+
+    /// Acquire attempt that never blocks
+    TryLock,
+}
+
 impl Mutex {
     pub(crate) fn new(seq_cst: bool) -> Mutex {
         super::execution(|execution| {
@@ -42,12 +52,13 @@ impl Mutex {
     }
 
     pub(crate) fn acquire_lock(&self, location: Location) {
-        self.state.branch_acquire(self.is_locked(), location);
+        self.state
+            .branch_disable(Action::Lock, self.is_locked(), location);
         assert!(self.post_acquire(), "expected to be able to acquire lock");
     }
 
     pub(crate) fn try_acquire_lock(&self, location: Location) -> bool {
-        self.state.branch_opaque(location);
+        self.state.branch_action(Action::TryLock, location);
         self.post_acquire()
     }
 
@@ -84,7 +95,7 @@ impl Mutex {
                     .as_ref()
                     .map(|operation| operation.object());
 
-                if obj == Some(self.state.erase()) {
+                if obj == Some(self.state.erase()) && thread.is_blocked() {
                     trace!(state = ?self.state, thread = ?id,
                         "Mutex::release_lock");
                     thread.set_runnable();
@@ -119,7 +130,10 @@ impl Mutex {
                 }
 
                 if let Some(operation) = thread.operation.as_ref() {
-                    if operation.object() == self.state.erase() {
+                    // An acquire attempt does not wait for the mutex.
+                    if operation.object() == self.state.erase()
+                        && operation.action() == object::Action::Mutex(Action::Lock)
+                    {
                         let location = operation.location();
                         trace!(state = ?self.state, thread = ?id,
                             "Mutex::post_acquire");
